@@ -388,8 +388,29 @@ pub fn check_effective(tree: &AffTree<2>, check_single_branch: bool, st: &mut C0
     let paths = node_paths(tree);
     let root = tree.tree.get_root_idx();
     let in_dim = tree.in_dim();
+    let mut exempt: BTreeSet<usize> = BTreeSet::new();
+    let mut stack: Vec<(usize, bool)> = vec![(root, false)];
+    while let Some((idx, ex)) = stack.pop() {
+        if ex {
+            exempt.insert(idx);
+        }
+        if let Ok(n) = tree.tree.tree_node(idx) {
+            let single = n.children.iter().flatten().count() == 1;
+            for c in n.children.iter().flatten() {
+                stack.push((*c, ex || single));
+            }
+        }
+    }
     for (idx, node) in tree.tree.node_iter() {
         if idx == root {
+            continue;
+        }
+        // An only child - and everything below it - is exempt: on a decision that has (or is left
+        // with) a single branch the library keeps that branch with its whole subtree even if it is
+        // infeasible (a decision must not lose all its children), and C06 speaks about trees whose
+        // decisions have both branches. (A decision that *loses* a branch is caught by the
+        // single-branch clause below.)
+        if exempt.contains(&idx) {
             continue;
         }
         st.nodes_examined += 1;
